@@ -501,7 +501,7 @@ Hypothesis smulB_add : forall a b, sB (a + b) = gadd P (sB a) (sB b).
 Hypothesis pt_add_enc : forall a b, pt_add P (enc a) (enc b) = Some (enc (gadd P a b)).
 
 Lemma wf_priv_pub w x : wf_priv w x -> wf_pub w (neuter P x).
-Proof. intros (_ & Hp & Hc & _ & Hr). unfold wf_pub, neuter, xprv_pub. cbn. auto. Qed.
+Proof using . intros (_ & Hp & Hc & _ & Hr). unfold wf_pub, neuter, xprv_pub. cbn. auto. Qed.
 
 Definition pub_Z (p : xpub P) (i : N) : bytes := hmac512 P (p_c p) (x02 :: enc (p_A p) ++ ser32 i).
 Definition pub_C (p : xpub P) (i : N) : bytes := hmac512 P (p_c p) (x03 :: enc (p_A p) ++ ser32 i).
@@ -518,7 +518,8 @@ Lemma derive_public_spec w p index hardened :
         else Ok (pub_child w {| p_A := gadd P (p_A p) (sB (8 * zL)); p_c := skipn 32 (pub_C p i) |} iz)
       else Err EValue
     else Err EAssert.
-Proof.
+Proof using enc_len pt_add_enc.
+  clear smulB_add pbkdf2_len.
   intros (Hp & Hc & Hroot). unfold derive. rewrite Hroot. fold (eff_index index hardened).
   cbv zeta. unfold derive_public. set (iz := eff_index index hardened).
   destruct (in_index_range iz); [|reflexivity]. cbn [negb].
@@ -543,7 +544,7 @@ Lemma derive_public_hardened w index hardened :
   derive P w index false hardened =
     Err (if is_empty (w_root_xprv w) && is_empty (w_root_pub w) then EValue
          else if (eff_index index hardened <? 2^32)%Z then EValue else EAssert).
-Proof.
+Proof using .
   intros H. unfold derive. fold (eff_index index hardened).
   destruct (is_empty (w_root_xprv w) && is_empty (w_root_pub w)); [reflexivity|].
   unfold derive_public, in_index_range.
@@ -558,7 +559,8 @@ Lemma derive_public_sound w p index hardened w' :
   wf_pub w p -> derive P w index false hardened = Ok w' -> w_pub w' <> enc (gzero P) ->
   exists p', spec_ckd_pub P p (Z.to_N (eff_index index hardened)) = Some p'
              /\ w' = pub_child w p' (eff_index index hardened) /\ wf_pub w' p' /\ w_xprv w' = None.
-Proof.
+Proof using enc_len pt_add_enc.
+  clear smulB_add pbkdf2_len.
   intros Hwf Hd Hne. rewrite (derive_public_spec w p index hardened Hwf) in Hd. cbv zeta in Hd.
   set (iz := eff_index index hardened) in *. set (i := Z.to_N iz) in *.
   destruct (in_index_range iz); [|discriminate].
@@ -578,7 +580,8 @@ Lemma derive_public_complete w p i p' :
   wf_pub w p -> spec_ckd_pub P p i = Some p' ->
   zL_of (pub_Z p i) <> 0 -> is_identity P (sB (8 * zL_of (pub_Z p i))) = false ->
   derive P w (Z.of_N i) false false = Ok (pub_child w p' (Z.of_N i)).
-Proof.
+Proof using enc_len pt_add_enc.
+  clear smulB_add pbkdf2_len.
   intros Hwf Hs Hz Hi. rewrite (derive_public_spec w p (Z.of_N i) false Hwf). cbv zeta. unfold eff_index.
   rewrite N2Z.id. unfold spec_ckd_pub, hardened_threshold in Hs.
   destruct (2^31 <=? i) eqn:E; [discriminate|]. apply N.leb_gt in E.
@@ -611,7 +614,8 @@ Lemma pub_priv_agree w x index hardened wp ws :
   derive P w index true hardened = Ok ws ->
   w_pub wp = w_pub ws /\ w_cc wp = w_cc ws /\ w_xprv wp = None
   /\ (eff_index index hardened < 2^31)%Z.
-Proof.
+Proof using enc_len pt_add_enc smulB_add.
+  clear pbkdf2_len.
   intros Hwf Hpos Hb Hp Hs.
   rewrite (derive_public_spec w _ index hardened (wf_priv_pub w x Hwf)) in Hp. cbv zeta in Hp.
   rewrite (derive_private_spec w x index hardened Hwf Hpos Hb) in Hs.
@@ -633,7 +637,8 @@ Lemma pub_succeeds_when_priv w x index hardened :
   let i := Z.to_N (eff_index index hardened) in
   zL_of (pub_Z (neuter P x) i) <> 0 -> is_identity P (sB (8 * zL_of (pub_Z (neuter P x) i))) = false ->
   exists wp, derive P w index false hardened = Ok wp.
-Proof.
+Proof using enc_len pt_add_enc.
+  clear smulB_add pbkdf2_len.
   intros Hwf Hr i Hz Hi.
   rewrite (derive_public_spec w _ index hardened (wf_priv_pub w x Hwf)). cbv zeta. fold i.
   replace (in_index_range (eff_index index hardened)) with true by (unfold in_index_range; lia).
